@@ -311,7 +311,12 @@ def c13_pburg(ctx, case):
     ctx.cls("criteria=%s" % c, "list" if case["as_list"] else "array")
     a, rho, k = spectrum.arburg(x, p, criteria=c)
     arg = x.tolist() if case["as_list"] else x
-    obj = spectrum.pburg(arg, p, criteria=c) if c else spectrum.pburg(arg, p)
+    # the class is constructed the way users do: with or without a sampling frequency, NFFT and scaling; none of them
+    # may change the model it exposes (a pure function of the case: picked from the order and length)
+    variant = (p + 3 * N) % 4
+    kw = [{}, {"sampling": 1000.0}, {"sampling": 0.25, "NFFT": 2 * N + 1}, {"sampling": 44100.0, "scale_by_freq": True}][variant]
+    ctx.cls("pburg kwargs: %s" % ",".join(sorted(kw)) if kw else "pburg kwargs: none")
+    obj = spectrum.pburg(arg, p, criteria=c, **kw) if c else spectrum.pburg(arg, p, **kw)
     obj()
     ctx.check(len(obj.ar) == len(a) and len(obj.reflection) == len(k), "pburg order %d/%d vs arburg %d/%d"
               % (len(obj.ar), len(obj.reflection), len(a), len(k)))
